@@ -223,6 +223,15 @@ Proof.
       inversion Hs; subst. cbn [append]. rewrite <- (IHs b r eq_refl). reflexivity.
 Qed.
 
+Lemma split_blank_app : forall s w r, split_blank s = Some (w, r) -> exists c, s = w ++ String c r.
+Proof.
+  induction s as [|a s IHs]; intros w r Hs; cbn [split_blank] in Hs; [discriminate|].
+  destruct (is_blank_or_tab a).
+  - inversion Hs; subst. exists a. reflexivity.
+  - destruct (split_blank s) as [[b t]|]; [|discriminate]. inversion Hs; subst.
+    destruct (IHs _ _ eq_refl) as [c Hc]. exists c. cbn [append]. rewrite <- Hc. reflexivity.
+Qed.
+
 Lemma directive_name_prefix : forall t name arg,
     directive_parts t = (name, arg) -> exists x, t = name ++ x.
 Proof.
@@ -232,9 +241,9 @@ Proof.
     - apply split_once_app in Hs. exists ("//" ++ r). exact Hs.
     - exists "". symmetry. apply app_empty_r. }
   destruct Hb as [y Hy].
-  destruct (split_once " " (before "//" t)) as [[w r]|] eqn:Hs.
-  - inversion Hd; subst name. apply split_once_app in Hs.
-    exists ((" " ++ r) ++ y). rewrite <- app_assoc_s, <- Hs. exact Hy.
+  destruct (split_blank (before "//" t)) as [[w r]|] eqn:Hs.
+  - inversion Hd; subst name. apply split_blank_app in Hs. destruct Hs as [c Hs].
+    exists (String c r ++ y). rewrite <- app_assoc_s, <- Hs. exact Hy.
   - inversion Hd; subst name. exists y. exact Hy.
 Qed.
 
